@@ -51,7 +51,7 @@ def plan(tier, seed):
     n = 3 if q else 12
     for i in range(n):
         # whole streams as bases of the fault enumeration: faults in the first, a middle and the very last message
-        shards.append(dict(name=f"streambase{i}", kind="stream", n=4 if q else 40, max_pairs=3))
+        shards.append(dict(name=f"streambase{i}", kind="stream", n=4 if q else 8, max_pairs=3))
         shards.append(dict(name=f"mutate{i}", kind="mutate", n=300 if q else 6000, start=i, step=n))
         shards.append(dict(name=f"stream{i}", kind="badstream", n=25 if q else 400))
         shards.append(dict(name=f"random{i}", kind="random", n=400 if q else 8000, start=i, step=n))
